@@ -81,9 +81,13 @@ class IntervalRegressor(BaseEstimator, RegressorMixin):
         )
         verbose = 1 if self.verbose == "tqdm" else (1 if self.verbose else 0)
 
+        # the resamplings are drawn before the threads start: drawing them
+        # inside the workers makes the result depend on the thread schedule
+        new_size = int(X.shape[0] * self.alpha + 0.5)
+        rnds = [numpy.random.randint(0, X.shape[0], new_size) for _ in estimators]
+
         def _fit_piecewise_estimator(i, est, X, y, sample_weight, alpha):
-            new_size = int(X.shape[0] * alpha + 0.5)
-            rnd = numpy.random.randint(0, X.shape[0], new_size)
+            rnd = rnds[i]
             Xr = X[rnd]
             yr = y[rnd]
             sr = sample_weight[rnd] if sample_weight is not None else None
